@@ -80,6 +80,8 @@ def _execute_run(desc: dict, deviations, want: tuple) -> dict:
 
     result: dict[str, Any] = {"run_seed": desc.get("run_seed"), "property": desc.get("property"), "status": "ok"}
     fatal: dict[str, Any] = {}
+    if os.environ.get("SIM_DEBUG_EXEC"):  # diagnostic only (never set by a check): run a debugging snippet inside the child
+        exec(compile(open(os.environ["SIM_DEBUG_EXEC"]).read(), os.environ["SIM_DEBUG_EXEC"], "exec"), {"desc": desc})
 
     def on_fatal(kind: str, detail: str) -> None:
         # deadlock or cap: cannot continue on any thread; report and leave the process
@@ -212,6 +214,7 @@ def fork_run(desc: dict, deviations: dict[int, str] | None = None, *, want: tupl
                 res = execute_run(desc, deviations, want=want)
             except BaseException as exc:  # noqa: BLE001
                 res = {"status": "harness_error", "error": "".join(traceback.format_exception(exc))[-6000:]}
+            S.dump_point_log()
             data = json.dumps(res, default=str).encode("utf-8", "replace")
             with os.fdopen(w, "wb") as f:
                 f.write(data)
